@@ -39,6 +39,9 @@ var ErrTimeout net.Error = timeoutErr{}
 // ErrClosed is returned by operations on a closed endpoint.
 var ErrClosed = errors.New("obsnet: use of closed network connection")
 
+// ErrRefused is what a Conn with FailWriteAt returns from the refused writes.
+var ErrRefused = errors.New("obsnet: write refused (connection reset by peer)")
+
 // Rel is a deadline relative to the clock at the time it was set.
 type Rel struct {
 	Zero bool          // the zero time: no deadline
@@ -119,9 +122,13 @@ func (l *Listener) Addr() net.Addr { return Addr("obs-listener") }
 type Conn struct {
 	Name string
 	Sink Sink // may be nil
+	// FailWriteAt > 0: the FailWriteAt-th Write (counting every call) and all later ones are refused
+	// with an error and reach nothing ("write-refused" is reported).
+	FailWriteAt int
 
 	mu        sync.Mutex
 	cond      *sync.Cond
+	nwrites   int
 	in        []byte
 	closed    bool
 	cliClosed bool
@@ -185,8 +192,13 @@ func (c *Conn) Write(p []byte) (int, error) {
 		c.report("write-closed", Rel{}, len(p))
 		return 0, ErrClosed
 	}
+	c.nwrites++
+	if c.FailWriteAt > 0 && c.nwrites >= c.FailWriteAt {
+		c.report("write-refused", Rel{}, len(p))
+		return 0, ErrRefused
+	}
 	c.writes = append(c.writes, append([]byte(nil), p...))
-	c.report("write", Rel{}, len(p))
+	c.report("write", Rel{}, len(c.writes))
 	return len(p), nil
 }
 
